@@ -908,7 +908,14 @@ class Interp:
             c = a[0]; aid = a[1]
             s.reach[aid] = s.reach.get(aid, 0) + 1
             if isinstance(c, int):
-                if not c: raise Violation('harness assertion %d failed' % aid, 'assert')
+                if not c:
+                    # the failing condition is concrete on this path; the symbols still matter for the replay: take a model of the path condition
+                    model = None
+                    if s.syms and s.concrete_syms is None:
+                        s.stats['solver_calls'] += 1
+                        if s.solver.check() == z3.sat:
+                            mdl = s.solver.model(); model = [mdl.eval(v, model_completion=True).as_long() if not isinstance(v, int) else v for v in s.syms]
+                    raise Violation('harness assertion %d failed' % aid, 'assert', model)
                 return None
             if c is UNDEF or isinstance(c, Partial): raise Violation('harness assertion %d evaluated on uninitialised data' % aid, 'uninit')
             c = c if z3.is_bool(c) else c != 0
